@@ -35,8 +35,9 @@ TARGETS = {
     "r_rc_gcc": dict(cxx="g++", std="c++17", flags=SAN, srcs=[dict(src="ranges/r_main.cpp")], libs="-lrapidcheck"),
     "c8_rc": dict(cxx="clang++", std="c++17", flags=SAN, srcs=[dict(src="clauses/c8_main.cpp")], libs="-lrapidcheck"),
     "c8_rc_gcc": dict(cxx="g++", std="c++17", flags=SAN, srcs=[dict(src="clauses/c8_main.cpp")], libs="-lrapidcheck"),
-    "q_rc": dict(cxx="clang++", std="c++20", flags=SAN, srcs=[dict(src="coro/q_main.cpp")], libs="-lrapidcheck"),
-    "q_rc_gcc": dict(cxx="g++", std="c++20", flags=SAN, srcs=[dict(src="coro/q_main.cpp")], libs="-lrapidcheck"),
+    # engine Q: the single source is compiled in 8 parts (its own -DQ_PARTS / -DQ_PART split of the site table) and linked
+    "q_rc": dict(cxx="clang++", std="c++20", flags=SAN, srcs=[dict(src="coro/q_main.cpp", defs="-DQ_PARTS=8 -DQ_PART=%d" % k, tag="part%d" % k) for k in range(8)], libs="-lrapidcheck"),
+    "q_rc_gcc": dict(cxx="g++", std="c++20", flags=SAN, srcs=[dict(src="coro/q_main.cpp", defs="-DQ_PARTS=8 -DQ_PART=%d" % k, tag="part%d" % k) for k in range(8)], libs="-lrapidcheck"),
     # engine T (threads): same source, ThreadSanitizer build (mode A) and ASan build (modes B, E)
     "t_tsan": dict(cxx="clang++", std="c++17", flags="-fsanitize=thread", srcs=[dict(src="threads/t_main.cpp")], libs="-lrapidcheck"),
     "t_tsan_gcc": dict(cxx="g++", std="c++17", flags="-fsanitize=thread", srcs=[dict(src="threads/t_main.cpp")], libs="-lrapidcheck"),
